@@ -58,9 +58,17 @@ def gen(tier, rnd):
         if int(w[1]) < (1 << 20) or w[2] == 'file': continue
         if len(w[6]) > 2 * 20000 + 10: continue      # C05's very large streamed chunks (chunk-size digit boundaries) are beyond what the byte-level parser model is run on here
         L.append('rtresp ' + ' '.join(w[1:9]) + ' 0')
+    # the same responses read by the client in pieces (through a relay): a first read of 1..12 bytes (inside the version, the status
+    # code, the reason phrase), a cut inside the header block, two cuts; the kernel alone would hand the whole head over in one read
+    resp = [l for l in L if l.startswith('rtresp ')]
+    picks = resp[::max(1, len(resp) // (40 if tier == 'quick' else 400))]
+    for i, l in enumerate(picks):
+        w = l.split()
+        for cuts in (str(1 + i % 12), '%d+%d' % (1 + i % 7, 9 + i % 40), str(13 + (i * 7) % 90)):
+            L.append('rtrespc %s %s' % (cuts, ' '.join(w[1:])))
     return L
 
-BAD = ('ASAN', 'UBSAN', 'HANG', 'CRASH', 'TERMINATE', 'MISSING', 'bad-op', 'capture-failed', 'bad-method')
+BAD = ('ASAN', 'UBSAN', 'HANG', 'CRASH', 'TERMINATE', 'MISSING', 'bad-op', 'capture-failed', 'bad-method', 'relay-failed')
 
 def fields(d):
     return dict(kv.split('=', 1) for kv in d.split(' ') if '=' in kv)
@@ -69,6 +77,7 @@ def oracle(ln, out):
     """direct statement of C02: what was built is what the other side sees"""
     if any(x in out for x in BAD): return ('crash', 'implementation aborted/hung: ' + out[:120])
     w = ln.split()
+    if w[0] == 'rtrespc': w = ['rtresp'] + w[2:]
     if w[0] == 'rtreq':
         m = re.fullmatch(r'wire\[(.*)\] seen\[(.*)\] client=(\S+)', out)
         if not m: return 'unexpected output ' + out[:100]
@@ -141,10 +150,11 @@ def oracle(ln, out):
 def classify(ln, out):
     w = ln.split()
     if w[0] == 'rtreq': return ('req', w[1], w[3].count(':'), w[4].count('='), w[5].count(':'), (len(w[6]) // 2).bit_length())
+    if w[0] == 'rtrespc': return ('respc', w[1].count('+')) + c05.classify('rtresp ' + ' '.join(w[2:]), out)[:6]
     return ('resp',) + c05.classify(ln, out)[:6]
 
 RULE = ('requests built with the real client request builder (every method, paths of token characters, 0..4 query parameters, 0..3 typed headers, 0..3 cookies, bodies of 0..5000 arbitrary octets) sent (a) to a raw capture socket '
-        'and (b) to a live Http::Endpoint whose handler dumps what it sees; responses produced by a scripted handler (generator of C05: all codes, headers, cookies, fixed and streamed bodies) read by the real client; '
+        'and (b) to a live Http::Endpoint whose handler dumps what it sees; responses produced by a scripted handler (generator of C05: all codes, headers, cookies, fixed and streamed bodies) read by the real client - directly, and (op rtrespc) through a relay that hands the response over in pieces ending at chosen offsets (first read of 1..12 bytes, cuts inside the header block); '
         'every dump is compared with the parser model run on the writer model\'s bytes. non-trivial = distinct (direction, method/code, #query, #headers, #cookies, body size class)')
 ASSUME = ['components need no escaping (token characters in names/values, arbitrary octets in bodies)', 'the caller does not set Content-Length, Cookie or User-Agent headers by hand (Client::doRequest removes a User-Agent the caller set: the client always names itself); Host may be set: the caller\'s value is the one the handler must find',
           'distinct query keys and cookie names', 'containers are unordered: order-dependent parts of the dumps are canonicalised (sorted) on both sides']
